@@ -195,7 +195,10 @@ fn op_cli(line: &str, args: &[SExp]) -> CaseResult {
     for c in &caps {
         match parse_flat(&c.body) {
             Ok((h, a, rest)) => {
-                let (m, _) = unbuild(&h, &a, false);
+                let (mut m, _) = unbuild(&h, &a, false);
+                if m.id > 0 {
+                    m.id = 1; // any positive request-id is as good as another
+                }
                 reqs.push(format!("({} payload={})", show_msg(&m), hex(&rest)));
                 if h.operation_or_status == Operation::PrintJob as u16 {
                     let find = |g: u8, name: &str| m.groups.iter().filter(|x| x.0 == g).flat_map(|x| x.1.iter()).find(|x| x.0 == name).map(|x| x.1.clone());
